@@ -178,10 +178,21 @@ def run(prog, rep):
     row(rep, prog, "conditional-without-parameters", q, "ValueError",
         lambda pc: any_lit(pc, lit_in("conditional_on", dd, True)) and any_lit(pc, lit_in("parameters", dd, False)),
         "a conditional description without 'parameters'")
-    row(rep, prog, "parameters-without-conditional", q, "ValueError",
-        lambda pc: any_lit(pc, lit_in("parameters", dd, True)) and any_lit(pc, lit_in("conditional_on", dd, False)),
+    def no_conditioner(l):
+        """'conditional_on' is absent - or present with the value None, which __init__ treats... as conditional: dist_desc.get('conditional_on') is None covers both"""
+        return l[0] == "isnone" and l[1][0] == "call" and l[1][1][0] == "attr" and l[1][1][2] == "get" and dd(l[1][1][1]) and l[1][2] and l[1][2][0] == ("const", "conditional_on") \
+            and (len(l[1][2]) == 1 or l[1][2][1] == NONE)
+    hit = row(rep, prog, "parameters-without-conditional", q, "ValueError",
+        lambda pc: any_lit(pc, lit_in("parameters", dd, True)) and (any_lit(pc, lit_in("conditional_on", dd, False)) or any(no_conditioner(l) for l in pc)),
         "'parameters' (unknown names, a fixed-and-dependent clash) given without 'conditional_on': they would be dropped without a word and the variable "
         "modelled as independent")
+    if hit is not None:
+        c_, st_ = hit
+        rep.check(any(no_conditioner(l) for l in c_.pcs.of(st_)), "C18.guard", f"{q}:parameters-without-conditional:none-value", c_.fn.where(st_),
+                  "'parameters' with 'conditional_on': None is rejected like 'parameters' without the key",
+                  "the guard tests only whether the KEY 'conditional_on' is there: a first variable given as {'conditional_on': None, 'parameters': {...}} is accepted, becomes a "
+                  "ConditionalDistribution without a conditioner, and pdf / draw_sample / IFORM fail later with \"missing 1 required positional argument: 'given'\"; "
+                  "test dist_desc.get('conditional_on') is None")
     row(rep, prog, "unknown-keys", q, "ValueError",
         lambda pc: any(nonempty_of(l, lambda X: mentions(X, ("attr", SELF, "_dist_description_keys"))) for l in pc),
         "a description with unknown keys")
@@ -301,7 +312,7 @@ def run(prog, rep):
         anchors=lambda c: [st for st in c.cfg.all_stmts() if isinstance(st, ast.Assign) and isinstance(st.targets[0], ast.Attribute) and st.targets[0].attr == "reference"])
     # rows shared with other properties' rules
     rep.part(shared, prog, rep)
-    rep.expect_min("C18.guard", 31)
+    rep.expect_min("C18.guard", 32)
     rep.expect_min("C18.hierarchy", 7)
     rep.expect_min("C18.shared", 21)
 
@@ -328,6 +339,13 @@ def _ev(t, env):
         return t[1]
     if t == env["cterm"]:
         return env["c"]
+    if k == "call" and t[1][0] == "attr" and t[1][2] == "get" and t[2] and t[2][0] == ("const", "conditional_on") and env["cterm"][0] == "sub" and t[1][1] == env["cterm"][1]:
+        return env["c"]         # dist_desc.get("conditional_on") of the description that has the key
+    if k == "isnone":
+        inner = t[1]
+        if inner == env["cterm"] or (inner[0] == "call" and inner[1][0] == "attr" and inner[1][2] == "get" and inner[2] and inner[2][0] == ("const", "conditional_on")):
+            return env["c"] is None
+        return None
     if t == env["iterm"]:
         return env["i"]
     if k == "cmp" and t[1] in ("<", "<=", ">", ">=", "=="):
@@ -380,6 +398,12 @@ def hierarchy(prog, rep):
             got = True  # comparison itself raises: still rejected
         else:
             got = all(vals)
+        if got is False:
+            # not rejected HERE - an earlier guard of the same function may already have rejected it (its negation is part of this path condition)
+            for _st2, _e2, pc2 in c.raises:
+                v2 = [_ev(l, env) for l in pc2]
+                if v2 and all(x is True for x in v2):
+                    got = True
         table[f"i={i},conditional_on={cv!r}"] = got
         if got is not want:
             bad.append(f"i={i}, conditional_on={cv!r}: {'rejected' if got else 'accepted' if got is False else 'undecided'} (must be {'rejected' if want else 'accepted'})")
